@@ -82,7 +82,7 @@ def run(ctx, cases=None):
         res.exhaustive = True
     else:
         res.rule = "replay"
-    from multiprocessing import Pool
+    from ..common import Pool
     with Pool(16) as pool:
         events = pool.map(make_event, cases, chunksize=200)
     # a rotation that creates objects or raises is judged without TLC help (the heaps are not comparable)
